@@ -210,15 +210,22 @@ func checkC07(c *Ctx) {
 		}
 		// and the size argument is the list's Size field at the call sites
 		if ok && rl != nil {
-			for _, f := range withAnon(rl) {
-				instrsOf(f, func(i ssa.Instruction) {
-					if call, isC := i.(*ssa.Call); isC && ir.Callee(call) == rd {
-						sl := c.sliceOf(call.Call.Args[1])
-						if !ir.HasField(sl, sigPkg+".SignatureList.Size") || ir.HasField(sl, sigPkg+".SignatureList.ListSize") || ir.HasField(sl, sigPkg+".SignatureList.HeaderSize") {
-							ok, det = false, "the size passed to the entry decoder at "+c.IPos(call)+" is not the list's SignatureSize field"
-						}
+			dv := c.deepViewOf(rl, 3)
+			for _, di := range dv.order {
+				call, isC := di.i.(*ssa.Call)
+				if !isC || ir.Callee(call) != rd {
+					continue
+				}
+				switch dv.fieldOrigin(call.Call.Args[1], di.fr, 0) {
+				case sigPkg + ".SignatureList.Size":
+				case "":
+					sl := c.sliceOf(call.Call.Args[1])
+					if !ir.HasField(sl, sigPkg+".SignatureList.Size") || ir.HasField(sl, sigPkg+".SignatureList.ListSize") || ir.HasField(sl, sigPkg+".SignatureList.HeaderSize") {
+						ok, det = false, "the size passed to the entry decoder at "+c.IPos(call)+" is not the list's SignatureSize field"
 					}
-				})
+				default:
+					ok, det = false, "the size passed to the entry decoder at "+c.IPos(call)+" is not the list's SignatureSize field"
+				}
 			}
 		}
 		c.R.Check(ok, "G1.tail", name(rd), "Data.len", c.Pos(rd.Pos()), "signature data is SignatureSize-16 bytes", det)
